@@ -220,6 +220,21 @@ def run(ctx):
                         % (short, show_path(path), k.split('::')[-1], ' | '.join(sorted({cond_text(w) or 'always' for w in missing}))[:400]))
             else:
                 res.ok(key, {'position': short + show_path(path), 'kind': k.split('::')[-1], 'worlds': n_rel})
+        # precision: a worklist step may only retain what the popped entity refers to
+        posset = {(pp, kk) for pp, kk in pos}
+        for w in worlds:
+            for e in w.trace:
+                if e['kind'] != 'call':
+                    continue
+                k = push_kind(F, e)
+                if not k:
+                    continue
+                r, pth = peel(e['args'][-1])
+                if r == root and (pth, k) in posset:
+                    continue
+                res.bad('closure/%s/extra/%s' % (short, re.sub(r'\W+', '_', show(e['args'][-1]))[:50]),
+                        'while tracing a %s the GC also retains %s (a %s) which that %s does not refer to: unreachable items '
+                        'would survive the pass [%s]' % (short, show(e['args'][-1])[:120], k.split('::')[-1], short, cond_text(w)[:160]))
         for path, head in cut_hits:
             # delegated to the visitor: the world that holds this position must run dfs_in_order with UsedVisitor
             key = 'closure/%s%s/visitor' % (short, show_path(path))
